@@ -281,6 +281,9 @@ func refMatch(fs *FlowSpec, probes []*sim.ProbeRec, pkt []byte) Match {
 			if o.Kind != 5 {
 				continue
 			}
+			if len(o.Data)%8 != 0 {
+				clean = false // stray bytes after the last block: accepting or ignoring are both fine
+			}
 			for d := o.Data; len(d) >= 8; d = d[8:] {
 				found = true
 				rel := binary.BigEndian.Uint32(d[:4]) - fs.ISN
